@@ -3,6 +3,7 @@ CONSTANTS
   ClampIndex = TRUE
   EmptySpanClamp = TRUE
   SkipReclip = TRUE
+  EmptySourceFix = TRUE
   Tol = 10
 INVARIANT Judge
 INVARIANT Conform
